@@ -1,6 +1,7 @@
 import ParolModel.Model.Tokens
 import ParolModel.Proofs.Regex
 import ParolModel.Proofs.Tokens
+import ParolModel.Proofs.RegexSem
 /-! # C13 — The scanner tokenizes by the documented rules
 
 "For every generated scanner and every input text, the token sequence equals the one obtained by
@@ -57,6 +58,13 @@ theorem step_longest_first (modes : List ScanMode) (st : ScanSt) (w : List Nat) 
       · rw [← ScanTerm.matchLen_eq_spec]; exact hlen
       · intro u hu k hk; exact hpre u hu k (by rw [ScanTerm.matchLen_eq_spec]; exact hk)
       · intro u hu k hk; exact hpost u hu k (by rw [ScanTerm.matchLen_eq_spec]; exact hk)
+
+/-- "the longest match among the terminals": a terminal's regex matches a string exactly when the
+    string belongs to the regular language it denotes (`Matches`: the textbook inductive definition);
+    the executable matcher used by `tokenizeSpec` (Brzozowski derivatives with normalising
+    constructors) decides this. -/
+theorem matchesRe_iff (r : Re) (w : List Nat) : matchesRe r w = true ↔ Matches r w :=
+  ParolModel.matchesRe_iff r w
 
 /-- "pop on an empty stack keeps the state". -/
 theorem pop_empty_keeps (m : Nat) : applyModeOp ⟨m, []⟩ (some .pop) = ⟨m, []⟩ := rfl
